@@ -29,7 +29,11 @@ def check_timers_own_nothing(ctx, fx, cfg, RULE="R05.3"):
     if cfg != "bare":
         timers = timer_coroutines(fx)
         ctx.floor(RULE, "timer coroutines in " + cfg, len(timers), 2)  # at least one periodic and one one-shot body (APIs may share bodies)
-        for f in timers:
+        # ... and the futures that await a sleeping private helper (`async move { .. send_every(myself, msg, d).await .. }`):
+        # what they hold while the helper sleeps is held while sleeping
+        import timers as _tm
+        outer = [g for g in _tm.timer_coroutines(fx) if g["def"] not in {t_["def"] for t_ in timers}]
+        for f in timers + outer:
             co = fx.coroutines.get(f["def"])
             inst = "%s@%s" % (f["def"].split("::")[-2], cfg)
             if not ctx.require(co is not None and "suspensions" in co, RULE, inst, "coroutine layout missing", fn=f["def"]):
@@ -37,10 +41,9 @@ def check_timers_own_nothing(ctx, fx, cfg, RULE="R05.3"):
             bad = [("captures", c, a["ty"]) for c, p, a in own.keepalive_atoms(co["upvar_atoms"])]
             n_sleep = 0
             for s in co["suspensions"]:
-                live_tys = [co["saved"][i] for i in s["live"]]
-                if any("SpawnFutures::sleep" in t for t in live_tys):
+                if _tm.is_sleeping_suspension(fx, co, s):
                     n_sleep += 1
-                    for c, p, a in own.keepalive_atoms(s["atoms"]):
+                    for c, p, a in _tm.held_while_sleeping(fx, s):
                         bad.append(("sleep@" + s["loc"], c, a["ty"]))
             ctx.require(not bad, RULE, inst, "a timer task holds a strong handle while it sleeps: %s" % bad[:3], fn=f["def"], site=f["loc"], detail={"sleep_suspensions": n_sleep})
             ctx.require(n_sleep >= 1, RULE, inst + ":sleep-found", "no suspension point holding the sleep future found", fn=f["def"], site=f["loc"])
@@ -200,6 +203,48 @@ def check_cfg(ctx, fx, cfg):
     listed = {f["def"] for f in fx.d["fns"] if f["kind"] in ("fn", "assoc_fn") and (f["def"] + "::") in CLOSURE_HOLDERS}
     # code extracted from a listed function into a private helper used only there belongs to the same entry
     listed_helpers = graph.private_helpers(fx, listed)
+    def exempt(d):
+        if any((d + "::").startswith(pfx) or d.startswith(pfx) for pfx in CLOSURE_HOLDERS):
+            return "listed"
+        if (fx.fn(d) or {}).get("root") in listed_helpers:
+            return "helper of a listed function"
+        # the body of a named submit object's `send` (`impl TxFn for BoundedTx`) is the submit closure of the constructors
+        # written as a method: its future holds a sender clone for the duration of one send (R01.3 judges it)
+        rootf = fx.fn((fx.fn(d) or {}).get("root") or "") or {}
+        if rootf.get("impl_trait_def") in (chan.TX_TRAIT, chan.FORCE_TRAIT) and (rootf.get("impl_self") or "").startswith("channel::"):
+            return "submit object"
+        # likewise the method body of a named object inside a strong handle (`impl CallerFn<M> for ActorCall<A>`: the future of
+        # one call holds the channel halves for the duration of that call, as the closure it replaces did)
+        if (rootf.get("impl_trait_def") or "").startswith(HANDLE_TRAIT_MODULES) and (rootf.get("impl_self") or "").split("<")[0] in handle_objects:
+            return "handle object"
+        # the body of an `async fn` holds what its caller handed in (and what it makes from it) for the duration of that
+        # call only: the future is returned to the caller, nothing keeps it beyond the await. What is listed above and
+        # reported below are closures and async blocks — the things that get stored or spawned.
+        df = fx.fn(d) or {}
+        pf = fx.fn(df.get("parent") or "") or {}
+        if df.get("kind") == "coroutine" and pf.get("is_async") and pf.get("kind") in ("fn", "assoc_fn") and not pf.get("impl_trait"):
+            return "async fn"
+        return None
+
+    def through_exempt(path, d):
+        """the path from the owner `d` to the atom goes through a future / closure that is itself an accepted holder (the
+        future of one `try_send` awaited by a timer body): the owner holds the handle only as long as that operation runs"""
+        # (only futures nested directly in the owner count — `[owner].saved1/[try_send::{closure#0}].saved0/Sender..`; a handle
+        # the owner itself holds — `[owner].saved0/Sender.send_fn/<dyn ..>/[Sender::new::{closure#0}]..` — is its own)
+        segs = [x for x in path.split("/") if x]
+        for sg in segs[1:]:
+            m = re.match(r"\[([^\]]+)\]", sg)
+            if not m:
+                return False
+            c = m.group(1)
+            cf = fx.fns.get(c)
+            if cf is None or cf["kind"] != "coroutine":
+                return False
+            if c != d and exempt(c):
+                return True
+        return False
+
+    import re
     for o in fx.owns:
         if o["kind"] not in ("closure", "coroutine"):
             continue
@@ -207,26 +252,13 @@ def check_cfg(ctx, fx, cfg):
         if not ka:
             continue
         d = o["def"]
-        if any((d + "::").startswith(pfx) or d.startswith(pfx) for pfx in CLOSURE_HOLDERS):
-            continue
-        if (fx.fn(d) or {}).get("root") in listed_helpers:
-            continue
-        # the body of a named submit object's `send` (`impl TxFn for BoundedTx`) is the submit closure of the constructors
-        # written as a method: its future holds a sender clone for the duration of one send (R01.3 judges it)
-        rootf = fx.fn((fx.fn(d) or {}).get("root") or "") or {}
-        if rootf.get("impl_trait_def") in (chan.TX_TRAIT, chan.FORCE_TRAIT) and (rootf.get("impl_self") or "").startswith("channel::"):
-            continue
-        # likewise the method body of a named object inside a strong handle (`impl CallerFn<M> for ActorCall<A>`: the future of
-        # one call holds the channel halves for the duration of that call, as the closure it replaces did)
-        if (rootf.get("impl_trait_def") or "").startswith(HANDLE_TRAIT_MODULES) and (rootf.get("impl_self") or "").split("<")[0] in handle_objects:
-            continue
-        # the body of an `async fn` holds what its caller handed in (and what it makes from it) for the duration of that
-        # call only: the future is returned to the caller, nothing keeps it beyond the await. What is listed above and
-        # reported below are closures and async blocks — the things that get stored or spawned.
-        df = fx.fn(d) or {}
-        pf = fx.fn(df.get("parent") or "") or {}
-        if df.get("kind") == "coroutine" and pf.get("is_async") and pf.get("kind") in ("fn", "assoc_fn") and not pf.get("impl_trait"):
+        why = exempt(d)
+        if why == "async fn":
             n_async_fn.append(d)
+        if why:
+            continue
+        ka = [(c_, p_, a) for c_, p_, a in ka if any(not through_exempt(pp, d) for pp in a.get("paths", []))]
+        if not ka:
             continue
         c_, p_, a = ka[0]
         ctx.viol("R05.10", "closure-holder:%s@%s" % (d, cfg), "a closure / future outside the closed list owns a strong handle (while it exists the actor cannot see its last handle dropped): %s via %s" % (a["ty"][:70], a["paths"][0][:100]), fn=d, site=(fx.fn(d) or {}).get("loc"))
